@@ -11,6 +11,7 @@ at the top-level directory.
 
 #include <stdlib.h> /* for getenv and atoi */
 #include "slu_mt_sdefs.h"
+#include "slu_mt_verif.h"
 
 void
 psgstrf(superlumt_options_t *superlumt_options, SuperMatrix *A, int_t *perm_r,
@@ -167,6 +168,10 @@ psgstrf(superlumt_options_t *superlumt_options, SuperMatrix *A, int_t *perm_r,
     if ( *info ) return;
 
     /* Start timing factorization. */
+    SLU_VERIF_EVL("Create", -1, pxgstrf_shared.Glu->map_in_sup, A->ncol + 1,
+		  nprocs, A->ncol, pxgstrf_shared.Glu->nzlumax,
+		  pxgstrf_shared.Glu->dynamic_snode_bound,
+		  pxgstrf_shared.Glu->nextlu);
     usrtime = usertimer_();
     wtime = SuperLU_timer_(); 
 
@@ -317,6 +322,7 @@ psgstrf(superlumt_options_t *superlumt_options, SuperMatrix *A, int_t *perm_r,
     
 #endif    
 
+    SLU_VERIF_EV("JoinAll", -1, nprocs);
     wtime = SuperLU_timer_() - wtime;
     usrtime = usertimer_() - usrtime;
     utime[FACT] = wtime;
